@@ -8,8 +8,10 @@ import (
 	"os"
 	"runtime"
 	"strings"
+	"sync"
 
 	"golang.org/x/tools/go/ssa"
+	"golang.org/x/tools/go/ssa/ssautil"
 
 	"gosym/smt"
 	"gosym/term"
@@ -139,6 +141,10 @@ type Machine struct {
 	pathViol   bool
 	sumCache   map[string]*summary
 	inSummary  bool
+	origins    map[*value]origin
+	symArrs    map[*value]*symArr
+	hashLogs   map[*value][]*term.Term
+	SymIndex   bool // symbolic indices into scalar slices stay symbolic (ite chains) instead of being case-split
 	NoSummaries    bool
 	SummariesBuilt int
 	SummaryHits    int
@@ -195,6 +201,9 @@ func (m *Machine) resetPath(prefix []Decision) {
 	m.records = map[string]int64{}
 	m.trace = nil
 	m.pathSteps = 0
+	m.origins = nil
+	m.symArrs = nil
+	m.hashLogs = nil
 	m.pathViol = false
 	m.Paths++
 }
@@ -544,8 +553,22 @@ func (m *Machine) call(fn *ssa.Function, args []value) value {
 		m.Funcs[name] = true
 		return v
 	}
-	return m.callBody(fn, args)
+	res := m.callBody(fn, args)
+	if opaqueResult[name] {
+		// The function was executed from its real SSA (so its state handling is real); its
+		// symbolic result is abstracted to an uninterpreted value per distinct result term
+		// (hash-consing: same computation => same term => same value).  Sound for proofs:
+		// what holds for every such function holds for the real one; a counterexample is
+		// validated by native replay.
+		if t, ok := res.(*term.Term); ok && !t.IsConst() {
+			m.Intrinsics["opaque-result:"+name] = true
+			return m.st.Abstract("uf_"+fn.Name(), t)
+		}
+	}
+	return res
 }
+
+var opaqueResult = map[string]bool{}
 
 func (m *Machine) callBody(fn *ssa.Function, args []value) value {
 	m.Funcs[fn.String()] = true
@@ -744,6 +767,10 @@ func (m *Machine) runBlock(fr *frame) {
 		case *ssa.TypeAssert:
 			fr.env[in] = m.typeAssert(fr, in)
 		case *ssa.Store:
+			if r, ok := m.get(fr, in.Addr).(*symRef); ok {
+				m.symStore(r, m.get(fr, in.Val).(*term.Term))
+				continue
+			}
 			p := m.get(fr, in.Addr).(*value)
 			if p == nil {
 				panic(goPanic{"nil pointer dereference (Store)"})
@@ -1073,6 +1100,27 @@ func (m *Machine) callReal(pkg, name string, args []value) value {
 	panic("callReal: " + pkg + "." + name)
 }
 
-func (m *Machine) callRealMethod(args []value) value {
-	panic("real filter methods with summary disabled are reached through normal dispatch")
+var (
+	allFuncsOnce sync.Once
+	allFuncs     map[string]*ssa.Function
+)
+
+// funcByName finds any function or method of the program by its ssa name.
+func (m *Machine) funcByName(name string) *ssa.Function {
+	allFuncsOnce.Do(func() {
+		allFuncs = map[string]*ssa.Function{}
+		for f := range ssautil.AllFunctions(m.prog) {
+			allFuncs[f.String()] = f
+		}
+	})
+	return allFuncs[name]
+}
+
+// callRealByName runs the real SSA body of a function that has an intrinsic.
+func (m *Machine) callRealByName(name string, args []value) value {
+	fn := m.funcByName(name)
+	if fn == nil {
+		panic("callRealByName: " + name)
+	}
+	return m.callBody(fn, args)
 }
